@@ -180,9 +180,15 @@ func evalC15(c *Ctx, cs *Case) {
 	}
 	heading := gen.CanHeading(f)
 	mk := 0
-	for _, sp := range sps {
+	for si, sp := range sps {
 		if sp.Heading > 0 && !heading {
 			sp.Heading = 0
+		}
+		if sp.CRLF && si%2 == 1 {
+			// every second CRLF spelling ends its lines in LF or CRLF line by line (a file that went
+			// through editors of both kinds): still "LF or CRLF" for every single line
+			sp.MixedEOL = true
+			c.Count("spellings_with_line_ends_mixed_per_line", 1)
 		}
 		doc := gen.Spell(f, sp)
 		// massive mode is observed for every spelling (heading roots and leading blank lines are
